@@ -94,12 +94,12 @@ def bits_val(a, n):
 
 contract(S + "write_string", {"s": "str", "outf": BYTES}, returns="none", transparent=True, props=["C15"],
          modifies=["outf"], native_args=_stream_args("outf"),
-         # len(s) characters are announced, utf8len(s) bytes follow: aligned iff the string is ASCII (utf8len == len)
-         requires=["len(s) < 65536", "utf8len(s) == len(s)"],
-         ensures=["len(outf) == len(old(outf)) + 2 + len(s)",
-                  "outf[len(old(outf))] * 256 + outf[len(old(outf)) + 1] == len(s)",
+         # the announced length is the number of BYTES that follow (utf8len), whatever characters the string holds
+         requires=["utf8len(s) < 65536"],
+         ensures=["len(outf) == len(old(outf)) + 2 + utf8len(s)",
+                  "outf[len(old(outf))] * 256 + outf[len(old(outf)) + 1] == utf8len(s)",
                   "all(outf[i] == old(outf)[i] for i in range(len(old(outf))))"],
-         gen=lambda rng, n: ({"s": rng.choice(["", "a", "chr1", "read_00012/ccs", "x" * 300]), "outf": []} for _ in range(n)))
+         gen=lambda rng, n: ({"s": rng.choice(["", "a", "chr1", "read_00012/ccs", "x" * 300, "g\u00e8ne", "\u00e9" * 40, "\u4e2d\u6587_id"]), "outf": []} for _ in range(n)))
 
 contract(S + "read_string", {"inf": BYTES}, returns="str", transparent=True, props=["C15"], modifies=["inf"],
          requires=["len(inf) >= 2", "isbytes(inf)", "len(inf) >= 2 + inf[0] * 256 + inf[1]"],
@@ -111,10 +111,10 @@ contract(S + "read_string", {"inf": BYTES}, returns="str", transparent=True, pro
 contract(S + "write_string_or_none", {"s": "opt[str]", "outf": BYTES}, returns="none", transparent=True, props=["C15"],
          modifies=["outf"], native_args=_stream_args("outf"),
          # 65535 is the None marker, so a real string must be shorter than that
-         requires=["s is None or (len(s) < 65535 and utf8len(s) == len(s))"],
-         ensures=["len(outf) == len(old(outf)) + 2 + (0 if s is None else len(s))",
-                  "outf[len(old(outf))] * 256 + outf[len(old(outf)) + 1] == (65535 if s is None else len(s))"],
-         gen=lambda rng, n: ({"s": rng.choice([None, "", "a", "ENST0001.1"]), "outf": []} for _ in range(n)))
+         requires=["s is None or utf8len(s) < 65535"],
+         ensures=["len(outf) == len(old(outf)) + 2 + (0 if s is None else utf8len(s))",
+                  "outf[len(old(outf))] * 256 + outf[len(old(outf)) + 1] == (65535 if s is None else utf8len(s))"],
+         gen=lambda rng, n: ({"s": rng.choice([None, "", "a", "ENST0001.1", "g\u00e8ne"]), "outf": []} for _ in range(n)))
 
 contract(S + "read_string_or_none", {"inf": BYTES}, returns="opt[str]", transparent=True, props=["C15"], modifies=["inf"],
          requires=["len(inf) >= 2", "isbytes(inf)",
@@ -147,14 +147,14 @@ contract(H + "rt_bool_array2_of3", {"b0": "bool", "b1": "bool", "b2": "bool", "r
          returns="tuple[list[bool],list[int],int]", props=["C15"], requires=["isbytes(rest)"],
          ensures=["len(result[0]) == 2 and result[0][0] == b0 and result[0][1] == b1", "result[2] == 1", "result[1] == rest"])
 contract(H + "rt_string_len", {"sv": "str", "rest": BYTES}, returns="tuple[str,list[int],int]", props=["C15"],
-         requires=["len(sv) < 65536", "utf8len(sv) == len(sv)", "isbytes(rest)"],
-         ensures=["result[2] == 2 + len(sv)", "result[1] == rest"],
-         native_ensures=["result[2] == 2 + len(sv)", "result[1] == rest", "result[0] == sv"],
-         gen=lambda rng, n: ({"sv": rng.choice(["", "a", "chr1", "t" * 70000][:3] + ["id_%d" % rng.randrange(1000)]),
+         requires=["utf8len(sv) < 65536", "isbytes(rest)"],
+         ensures=["result[2] == 2 + utf8len(sv)", "result[1] == rest"],
+         native_ensures=["result[2] == 2 + utf8len(sv)", "result[1] == rest", "result[0] == sv"],
+         gen=lambda rng, n: ({"sv": rng.choice(["", "a", "chr1", "g\u00e8ne", "\u4e2d\u6587"] + ["id_%d" % rng.randrange(1000)]),
                               "rest": [rng.randrange(256) for _ in range(rng.randint(0, 3))]} for _ in range(n)))
 contract(H + "rt_string_or_none_len", {"sv": "opt[str]", "rest": BYTES}, returns="tuple[opt[str],list[int],int]", props=["C15"],
-         requires=["sv is None or (len(sv) < 65535 and utf8len(sv) == len(sv))", "isbytes(rest)"],
-         ensures=["result[2] == 2 + (0 if sv is None else len(sv))", "result[1] == rest", "(result[0] is None) == (sv is None)"],
+         requires=["sv is None or utf8len(sv) < 65535", "isbytes(rest)"],
+         ensures=["result[2] == 2 + (0 if sv is None else utf8len(sv))", "result[1] == rest", "(result[0] is None) == (sv is None)"],
          native_ensures=["result[1] == rest", "result[0] == sv"],
-         gen=lambda rng, n: ({"sv": rng.choice([None, "", "a", "gene_7"]), "rest": [rng.randrange(256) for _ in range(rng.randint(0, 3))]}
+         gen=lambda rng, n: ({"sv": rng.choice([None, "", "a", "gene_7", "g\u00e8ne"]), "rest": [rng.randrange(256) for _ in range(rng.randint(0, 3))]}
                              for _ in range(n)))
